@@ -52,6 +52,17 @@ fn check_case(c: &SeqCase, obs: &mut Obs) -> Verdict {
         Ok(o) => o,
         Err(p) => return Verdict::Fail(format!("patience capture: {}", p)),
     };
+    // the counts below only mean something for a valid script (C01 / C02 oracles)
+    {
+        let (old, new) = (&c.old, &c.new);
+        if let Err(m) = validate_raw(&ev, c.old_r(), c.new_r(), &|i, j| old[i] == new[j]) {
+            let short: String = format!("{:?}", ev).chars().take(400).collect();
+            return Verdict::Fail(format!("patience raw stream is not a valid script: {} (stream {})", m, short));
+        }
+        if let Err(m) = super::c02::judge_ops(&ops, &old[..], c.old_r(), &new[..], c.new_r()) {
+            return Verdict::Fail(format!("patience capture is not a valid script: {}", m));
+        }
+    }
     // the same diff over items whose lawful Hash sees only two bits: anchoring must not change
     {
         let oc: Vec<items::Coarse> = c.old.iter().map(|x| items::Coarse(*x)).collect();
@@ -164,6 +175,9 @@ fn check_case(c: &SeqCase, obs: &mut Obs) -> Verdict {
             Ok(e) => e,
             Err(p) => return Verdict::Fail(format!("patience over two windows of one buffer: {}", p)),
         };
+        if let Err(m) = validate_raw(&ev2, c.old_r(), nr2.0..nr2.1, &|i, j| buf[i] == buf[j]) {
+            return Verdict::Fail(format!("patience over two windows {:?} and {:?} of ONE buffer {:?}: the stream {:?} is not a valid script: {}", c.or, nr2, buf, ev2, m));
+        }
         let mut set = std::collections::HashSet::new();
         for e in &ev2 {
             if let Ev::Equal(o, n, l) = *e {
@@ -301,6 +315,35 @@ fn enum_large(_tier: Tier, f: &mut dyn FnMut(SeqCase) -> bool) {
             }
         }
     }
+    // a costly prefix (p blocks of 10 kept + 1 replaced item: hundreds of search rounds over the unique
+    // lists), then a short run S and a long run L that change places around a large old-only block M:
+    // keeping L (and giving up S) is the longest in-order choice
+    for (p, sl, ml, ll) in [(150u32, 25u32, 800u32, 100u32), (100, 20, 600, 60), (150, 40, 800, 100), (120, 25, 600, 100)] {
+        let mut old: Vec<u32> = vec![];
+        let mut new: Vec<u32> = vec![];
+        let mut next = 10u32;
+        for _ in 0..p {
+            for _ in 0..10 {
+                old.push(next);
+                new.push(next);
+                next += 1;
+            }
+            old.push(next);
+            new.push(next + 1);
+            next += 2;
+        }
+        let s_run: Vec<u32> = (next..next + sl).collect();
+        next += sl;
+        let m_run: Vec<u32> = (next..next + ml).collect();
+        next += ml;
+        let l_run: Vec<u32> = (next..next + ll).collect();
+        old.extend(&s_run);
+        old.extend(&m_run);
+        old.extend(&l_run);
+        new.extend(&l_run);
+        new.extend(&s_run);
+        cases.push(SeqCase::full(1, old, new));
+    }
     for mut c in cases {
         c.mode = 0;
         if !f(c) {
@@ -324,7 +367,7 @@ impl Prop for C15 {
     type Case = SeqCase;
     const ID: &'static str = "C15";
     fn rule() -> String {
-        "cases = (old, new, ranges, capture entry point) diffed with Patience, no deadline, raw, captured and (full-range cases) as the lines of a TextDiff with Algorithm::Patience; enumeration of all pairs over a 4-letter alphabet plus proptest mixture (unique markers at independent positions on both sides, would-be anchors duplicated on one side, permutations, repeats, block moves, sub-ranges; permutations of 20-120/300 distinct items with up to 60 repeated filler items interleaved, on sub-ranges). Oracle: U = items occurring exactly once in each range; lis = longest subsequence of U in the same relative order on both sides (patience sorting); the number of U items reported Equal with their unique counterpart must be >= lis, and a U item must never be matched to another position. For a third of the cases the same oracle is also applied to patience::diff over TWO WINDOWS OF ONE BUFFER (old and new are the same object, different ranges). Non-trivial = 0 < lis < |U| and repeated items present; distinct = distinct serialized case.".into()
+        "cases = (old, new, ranges, capture entry point) diffed with Patience, no deadline, raw, captured and (full-range cases) as the lines of a TextDiff with Algorithm::Patience; enumeration of all pairs over a 4-letter alphabet plus proptest mixture (unique markers at independent positions on both sides, would-be anchors duplicated on one side, permutations, repeats, block moves, sub-ranges; permutations of 20-120/300 distinct items with up to 60 repeated filler items interleaved, on sub-ranges). Oracle: the raw stream and the captured ops are valid scripts (C01 / C02 oracles, judged first); U = items occurring exactly once in each range; lis = longest subsequence of U in the same relative order on both sides (patience sorting); the number of U items reported Equal with their unique counterpart must be >= lis, and a U item must never be matched to another position. For a third of the cases the same oracle is also applied to patience::diff over TWO WINDOWS OF ONE BUFFER (old and new are the same object, different ranges). Non-trivial = 0 < lis < |U| and repeated items present; distinct = distinct serialized case.".into()
     }
     fn assumptions() -> Vec<String> {
         vec!["covered > lis is impossible for a valid script and treated as a harness bug (exit 2)".into()]
@@ -342,7 +385,7 @@ impl Prop for C15 {
             Stage {
                 name: "large",
                 kind: StageKind::Enumerate {
-                    scope: "1612 fixed cases: 2 with the unique items only behind 2300 items without any (crossing); all 1600 pairs of heads of up to 3 items over 3 values in front of a 600-item periodic tail; 300 / 520 / 1100 unique common items that cross (evens before odds; exchanged thirds), outnumbered by repeated filler; rotations of 700 and 1500 distinct items; 66 000 distinct common items with a unique item crossed by repeats behind (and in front of) them".into(),
+                    scope: "1616 fixed cases: 4 with a costly prefix (100-150 blocks of 10 kept + 1 replaced item) followed by a short and a long run that change places around a large old-only block; 2 with the unique items only behind 2300 items without any (crossing); all 1600 pairs of heads of up to 3 items over 3 values in front of a 600-item periodic tail; 300 / 520 / 1100 unique common items that cross (evens before odds; exchanged thirds), outnumbered by repeated filler; rotations of 700 and 1500 distinct items; 66 000 distinct common items with a unique item crossed by repeats behind (and in front of) them".into(),
                     exhaustive: true,
                     gen: enum_large,
                 },
